@@ -110,12 +110,13 @@ _A = ["execCall", "execAsyncCall"]
 _E = ["eventCall", "smSend"]
 SRC_TIE = {
     "C07": ["eventCall", "reservedNames", "injectedNames", "bindExpected", "callableMethod"],
-    "C13": _E + ["allowedEvents"],
+    "C13": _E + ["allowedEvents", "decl"],
+    "C15": ["decl"],
     "C10": ["store", "smInit"],
     "C12": ["smInit", "registerCallbacks", "addListener", "registry"],
     "C17": ["getState", "setState", "registerCallbacks", "addListener"],
-    "C09": ["visitConnected", "classCheck", "metaInit", "transitionInit"],
-    "C01": ["triggerSync", "triggerAsync"] + _W + _G,
+    "C09": ["visitConnected", "classCheck", "metaInit", "transitionInit", "decl"],
+    "C01": ["triggerSync", "triggerAsync"] + _W + _G + ["decl"],
     "C02": ["activateSync", "activateAsync"] + _W + _A + ["registry"],
     "C03": ["processSync", "processAsync"] + _E,
     "C04": ["activateSync", "activateAsync", "processSync", "processAsync"] + _A,
@@ -128,8 +129,9 @@ SRC_TIE = {
 TIE_MOD = "SMV.Src.Tie"
 TIE_MODS = ["SMV.Src.Tie", "SMV.Src.TieExpr"]
 # further tie modules, built and audited only for the properties whose index names their theorems
-TIE_EXTRA = {"C07": ["SMV.Src.TieBind"], "C09": ["SMV.Src.TieCheck"], "C10": ["SMV.Src.TieStore"],
-             "C11": ["SMV.Src.TieStore"], "C12": ["SMV.Src.TieStore", "SMV.Src.TieReg"], "C02": ["SMV.Src.TieReg"], "C13": ["SMV.Src.TieStore"],
+TIE_EXTRA = {"C07": ["SMV.Src.TieBind"], "C09": ["SMV.Src.TieCheck", "SMV.Src.TieDecl"], "C01": ["SMV.Src.TieDecl"],
+             "C15": ["SMV.Src.TieDecl"], "C10": ["SMV.Src.TieStore"],
+             "C11": ["SMV.Src.TieStore"], "C12": ["SMV.Src.TieStore", "SMV.Src.TieReg"], "C02": ["SMV.Src.TieReg"], "C13": ["SMV.Src.TieStore", "SMV.Src.TieDecl"],
              "C17": ["SMV.Src.TieStore"]}
 
 
